@@ -91,6 +91,7 @@ type loopInfo struct {
 	kTerm      string // _k at header (after havoc)
 	mapIter    *ssa.Range
 	entryPhis  map[*ssa.Phi]string
+	hdrPhis    map[*ssa.Phi]string
 	entryState *State
 }
 
@@ -131,6 +132,7 @@ type VC struct {
 	trustedUsed map[string]bool
 	notes       []string
 	funcName    string
+	curClause   string
 	sliceBack   map[string]*Loc // array-backed slices: arr term -> backing location
 }
 
@@ -178,6 +180,13 @@ func (vc *VC) fresh(prefix, sort string) string {
 
 func (vc *VC) define(prefix, sort, term string) string {
 	n := vc.freshName(prefix)
+	if sort == "Slice" || strings.HasPrefix(sort, "(Array") {
+		// named by equation rather than by macro, so that the name can occur in quantifier patterns
+		// (solvers expand define-fun before matching and reject if-then-else inside patterns)
+		vc.emit(fmt.Sprintf("(declare-const %s %s)", n, sort))
+		vc.emit(fmt.Sprintf("(assert (= %s %s))", n, term))
+		return n
+	}
 	vc.emit(fmt.Sprintf("(define-fun %s () %s %s)", n, sort, term))
 	return n
 }
@@ -678,6 +687,12 @@ func (vc *VC) analyzeLoops() []*ssa.BasicBlock {
 		best := token.NoPos
 		for blk := range hdrs[b].blocks {
 			for _, in := range blk.Instrs {
+				if _, isPhi := in.(*ssa.Phi); isPhi {
+					continue // a phi's position is the variable's declaration, possibly before the loop
+				}
+				if _, isDbg := in.(*ssa.DebugRef); isDbg {
+					continue
+				}
 				if p := in.Pos(); p != token.NoPos && (best == token.NoPos || p < best) {
 					best = p
 				}
@@ -850,6 +865,9 @@ func (vc *VC) run() (err error) {
 		if r := recover(); r != nil {
 			if u, ok := r.(unsupported); ok {
 				err = fmt.Errorf("%s: outside the supported subset: %s", vc.funcName, u.msg)
+				if strings.HasPrefix(u.msg, "contract:") && vc.curClause != "" {
+					err = fmt.Errorf("%v [while evaluating: %s]", err, truncate(vc.curClause, 200))
+				}
 				return
 			}
 			panic(r)
@@ -981,6 +999,9 @@ func (vc *VC) enterLoop(lp *loopInfo, b *ssa.BasicBlock, st *State, edges []inEd
 	lp.hdrState = st
 	lp.kTerm = ""
 	env := &Env{vc: vc, cur: st, old: vc.entry, vars: map[string]SVal{}, loop: lp, atHeader: true, block: b}
+	for _, h := range ls.Hints {
+		vc.tryHint(env, h, reachEntry) // hints that mention iterold(...) do not apply on entry and are skipped
+	}
 	for i, c := range ls.Invariants {
 		f := env.evalBool(c.E)
 		env.flushSide(reachEntry)
@@ -1052,6 +1073,10 @@ func (vc *VC) enterLoop(lp *loopInfo, b *ssa.BasicBlock, st *State, edges []inEd
 		n := vc.fresh(ph.Name(), vc.d.sortOf(ph.Type()))
 		vc.vals[ph] = n
 		vc.assumeRange(n, ph.Type(), hst, "")
+		if lp.hdrPhis == nil {
+			lp.hdrPhis = map[*ssa.Phi]string{}
+		}
+		lp.hdrPhis[ph] = n
 	}
 	lp.hdrState = hst.clone()
 	// map-range loops: visited set is loop carried
